@@ -45,7 +45,7 @@ var (
 	uriVocab  = []string{"http://example.org/a", "http://example.org/b", "urn:uuid:53fefa32-fcbb-4ff8-8a92-55ee120877b7", "http://loinc.org", "http://unitsofmeasure.org", "http://hl7.org/fhir/StructureDefinition/ext-1"}
 	idVocab   = []string{"p1", "p2", "obs-1", "enc1", "a1b2", "x", "#med1"}
 	extURLs   = []string{"http://example.org/ext/a", "http://example.org/ext/b", "http://hl7.org/fhir/StructureDefinition/ext-1"}
-	decVocab  = []string{"0", "1", "1.0", "1.50", "-2.25", "100", "0.001", "3.14159", "1e2", "12345.678"}
+	decVocab  = []string{"0", "1", "1.0", "1.50", "-2.25", "100", "0.001", "3.14159", "1e2", "12345.678", "-4.50", "-1", "-0.5"}
 	tzVocab   = []string{"Z", "UTC", "+00:00", "-03:30", "-02:30", "+05:30", "+12:45", "+13:45", "+01:00", "-05:00", "+10:30", "+11:00", "", "GMT", "NST", "IST", "EST"}
 	unitVocab = []string{"mg", "kg", "cm", "m", "s", "min", "h", "d", "wk", "mo", "a", "1"}
 )
@@ -153,8 +153,15 @@ func (g *resGen) fillMessage(m protoreflect.Message, depth int) {
 		case "contained":
 			prob = 0.35
 		}
-		if depth >= g.maxDepth || g.budget <= 0 {
+		if g.budget <= 0 {
 			prob = 0
+		} else if depth >= g.maxDepth {
+			// at the depth limit no further complex elements - but the primitive members of the element
+			// itself are still filled (a Quantity without its value, a Coding without its code are of
+			// little use to the functions that read them)
+			if fd.Kind() != protoreflect.MessageKind || !isPrimitiveDesc(fd.Message()) || fd.IsList() || name == "id" {
+				prob = 0
+			}
 		}
 		if depth == 0 {
 			prob += 0.25
